@@ -224,7 +224,7 @@ func vpMsgTerm(r *raft, pre vpRec, x *pb.Message, m *pb.Message) {
 // ---------------------------------------------------------------------------
 
 func vpDefaultOpts(role StateType) vpOpts {
-	o := vpOpts{role: role, shapes: []int{0}, ls: 1, lu: 1}
+	o := vpOpts{role: role, shapes: []int{0}, ls: 1, lu: 1, noSizeLimit: true}
 	if role == StateLeader {
 		o.leaderPr = true
 		o.inflPeers = 1
@@ -232,6 +232,82 @@ func vpDefaultOpts(role StateType) vpOpts {
 	}
 	return o
 }
+
+// vpCell runs one (role, message type) cell. tier 0 = quick bounds, 1 = thorough bounds.
+func vpCell(role StateType, typ pb.MessageType, tier int) {
+	o := vpDefaultOpts(role)
+	if tier >= 1 {
+		o.ls, o.lu = 2, 2
+		o.noSizeLimit = false
+		o.shapes = []int{0, 1, 3, 7}
+		if role == StateLeader {
+			o.symPeers = 2
+			o.inflPeers = 2
+		}
+	}
+	if role == StateLeader {
+		switch typ {
+		case pb.MsgAppResp, pb.MsgHeartbeatResp, pb.MsgBeat, pb.MsgProp, pb.MsgSnapStatus, pb.MsgUnreachable, pb.MsgTransferLeader, pb.MsgCheckQuorum, pb.MsgReadIndex:
+		default:
+			// cells in which a leader only steps down (or ignores the message):
+			// the replication state of its peers is irrelevant, keep it as
+			// reset() leaves it
+			o.leaderPr = false
+		}
+	}
+	mo := vpMsgOpts{typ: typ}
+	switch typ {
+	case pb.MsgApp:
+		mo.maxEnts = 2
+	case pb.MsgProp:
+		mo.maxEnts = 2
+		mo.propEnts = true
+	case pb.MsgVote, pb.MsgPreVote, pb.MsgHeartbeat, pb.MsgHeartbeatResp:
+		mo.ctx = true
+	case pb.MsgSnap:
+		mo.snap = true
+		o.unstSnap = true
+	case pb.MsgReadIndex, pb.MsgReadIndexResp:
+		mo.maxEnts = 1
+		mo.propEnts = true
+	case pb.MsgVoteResp, pb.MsgPreVoteResp:
+		o.votes = true
+		if tier == 0 {
+			o.shapes = []int{0, 1}
+		}
+	case pb.MsgHup, pb.MsgTimeoutNow:
+		if tier == 0 {
+			o.shapes = []int{0, 4, 5}
+		}
+	case pb.MsgCheckQuorum:
+		if tier == 0 {
+			o.shapes = []int{0, 1, 3}
+		}
+	}
+	vpStepCell(role, o, mo)
+}
+
+// size-limit cells (C16-L2): symbolic maxMsgSize on the leader paths that send appends
+func vpSizeCell(typ pb.MessageType, lu int) {
+	o := vpDefaultOpts(StateLeader)
+	o.noSizeLimit = false
+	o.ls, o.lu = 1, lu
+	mo := vpMsgOpts{typ: typ}
+	if typ == pb.MsgHeartbeatResp {
+		mo.ctx = true
+	}
+	if typ == pb.MsgProp {
+		mo.maxEnts = 2
+		mo.propEnts = true
+	}
+	vpStepCell(StateLeader, o, mo)
+}
+
+func vpH_size_L_MsgHeartbeatResp() { vpSizeCell(pb.MsgHeartbeatResp, 2) }
+func vpH_size_L_MsgProp()          { vpSizeCell(pb.MsgProp, 1) }
+func vpH_size_L_MsgAppResp()       { vpSizeCell(pb.MsgAppResp, 2) }
+
+
 
 // vpValidity adds the V-* assumptions of DESIGN 3.2 needed for panic-freedom
 // and Inv preservation of the given message on the given node.
@@ -302,6 +378,7 @@ func vpStepCell(role StateType, o vpOpts, mo vpMsgOpts) {
 	pre := vpRecord(r)
 	p2 := vpRecord2(r)
 	preCfg := r.trk.ConfState()
+	rp := vpReadRecord(r)
 	orig := append([]*pb.Entry(nil), m.GetEntries()...)
 	err := r.Step(m)
 	vpObserve("step", vpB2U(err != nil), r.Term, r.Vote, r.lead, uint64(r.state), r.raftLog.committed, uint64(len(r.msgs)), uint64(len(r.msgsAfterAppend)))
@@ -322,90 +399,42 @@ func vpStepCell(role StateType, o vpOpts, mo vpMsgOpts) {
 		vpPostProp(r, pre, p2, m, err, orig)
 	case pb.MsgCheckQuorum:
 		vpPostCheckQuorum(r, pre, p2)
+	case pb.MsgReadIndex:
+		if len(m.GetEntries()) == 1 {
+			vpPostReadIndexLeader(r, pre, p2, rp, m)
+		}
+		vpPostReadFollower(r, pre, p2, m)
+	case pb.MsgReadIndexResp:
+		vpPostReadFollower(r, pre, p2, m)
+	case pb.MsgHeartbeatResp:
+		vpPostHeartbeatRespLeader(r, pre, p2, rp, m)
+	case pb.MsgSnapStatus:
+		vpPostSnapStatus(r, pre, p2, m)
+	case pb.MsgHup, pb.MsgTimeoutNow:
+		vpPostCampaignGate(r, pre, p2, m)
 	}
+	vpPostReadReset(r, pre)
 }
 
-func vpCell(role StateType, typ pb.MessageType) {
-	o := vpDefaultOpts(role)
+// ---- C11 cells: leader with queued read requests, singleton and joint shapes ----
+
+func vpReadCell(typ pb.MessageType, shapes []int, reads, pend int) {
+	o := vpDefaultOpts(StateLeader)
+	o.shapes = shapes
+	o.reads = reads
+	o.pendReads = pend
+	o.plainData = true
 	mo := vpMsgOpts{typ: typ}
-	switch typ {
-	case pb.MsgApp:
-		mo.maxEnts = 2
-	case pb.MsgProp:
-		mo.maxEnts = 2
-		mo.propEnts = true
-	case pb.MsgVote, pb.MsgPreVote, pb.MsgHeartbeat, pb.MsgHeartbeatResp:
-		mo.ctx = true
-	case pb.MsgSnap:
-		mo.snap = true
-	case pb.MsgReadIndex, pb.MsgReadIndexResp:
+	if typ == pb.MsgReadIndex {
 		mo.maxEnts = 1
 		mo.propEnts = true
+	} else {
+		mo.ctx = true
 	}
-	if typ == pb.MsgSnap {
-		o.unstSnap = true
-	}
-	if typ == pb.MsgVoteResp || typ == pb.MsgPreVoteResp {
-		o.votes = true
-	}
-	vpStepCell(role, o, mo)
+	vpStepCell(StateLeader, o, mo)
 }
 
-func vpH_step_F_MsgVote()      { vpCell(StateFollower, pb.MsgVote) }
-func vpH_step_C_MsgVote()      { vpCell(StateCandidate, pb.MsgVote) }
-func vpH_step_P_MsgVote()      { vpCell(StatePreCandidate, pb.MsgVote) }
-func vpH_step_L_MsgVote()      { vpCell(StateLeader, pb.MsgVote) }
-func vpH_step_F_MsgPreVote()   { vpCell(StateFollower, pb.MsgPreVote) }
-func vpH_step_C_MsgPreVote()   { vpCell(StateCandidate, pb.MsgPreVote) }
-func vpH_step_P_MsgPreVote()   { vpCell(StatePreCandidate, pb.MsgPreVote) }
-func vpH_step_L_MsgPreVote()   { vpCell(StateLeader, pb.MsgPreVote) }
-func vpH_step_F_MsgVoteResp()  { vpCell(StateFollower, pb.MsgVoteResp) }
-func vpH_step_C_MsgVoteResp()  { vpCell(StateCandidate, pb.MsgVoteResp) }
-func vpH_step_P_MsgVoteResp()  { vpCell(StatePreCandidate, pb.MsgVoteResp) }
-func vpH_step_L_MsgVoteResp()  { vpCell(StateLeader, pb.MsgVoteResp) }
-func vpH_step_F_MsgPreVoteResp() { vpCell(StateFollower, pb.MsgPreVoteResp) }
-func vpH_step_C_MsgPreVoteResp() { vpCell(StateCandidate, pb.MsgPreVoteResp) }
-func vpH_step_P_MsgPreVoteResp() { vpCell(StatePreCandidate, pb.MsgPreVoteResp) }
-func vpH_step_L_MsgPreVoteResp() { vpCell(StateLeader, pb.MsgPreVoteResp) }
-func vpH_step_F_MsgHeartbeat() { vpCell(StateFollower, pb.MsgHeartbeat) }
-func vpH_step_C_MsgHeartbeat() { vpCell(StateCandidate, pb.MsgHeartbeat) }
-func vpH_step_P_MsgHeartbeat() { vpCell(StatePreCandidate, pb.MsgHeartbeat) }
-func vpH_step_L_MsgHeartbeat() { vpCell(StateLeader, pb.MsgHeartbeat) }
-func vpH_step_F_MsgApp()       { vpCell(StateFollower, pb.MsgApp) }
-func vpH_step_C_MsgApp()       { vpCell(StateCandidate, pb.MsgApp) }
-func vpH_step_P_MsgApp()       { vpCell(StatePreCandidate, pb.MsgApp) }
-func vpH_step_L_MsgApp()       { vpCell(StateLeader, pb.MsgApp) }
-func vpH_step_F_MsgSnap()      { vpCell(StateFollower, pb.MsgSnap) }
-func vpH_step_C_MsgSnap()      { vpCell(StateCandidate, pb.MsgSnap) }
-func vpH_step_P_MsgSnap()      { vpCell(StatePreCandidate, pb.MsgSnap) }
-func vpH_step_L_MsgSnap()      { vpCell(StateLeader, pb.MsgSnap) }
-func vpH_step_F_MsgHup()       { vpCell(StateFollower, pb.MsgHup) }
-func vpH_step_C_MsgHup()       { vpCell(StateCandidate, pb.MsgHup) }
-func vpH_step_P_MsgHup()       { vpCell(StatePreCandidate, pb.MsgHup) }
-func vpH_step_L_MsgHup()       { vpCell(StateLeader, pb.MsgHup) }
-func vpH_step_F_MsgTimeoutNow() { vpCell(StateFollower, pb.MsgTimeoutNow) }
-func vpH_step_C_MsgTimeoutNow() { vpCell(StateCandidate, pb.MsgTimeoutNow) }
-func vpH_step_P_MsgTimeoutNow() { vpCell(StatePreCandidate, pb.MsgTimeoutNow) }
-func vpH_step_L_MsgTimeoutNow() { vpCell(StateLeader, pb.MsgTimeoutNow) }
-func vpH_step_F_MsgProp()      { vpCell(StateFollower, pb.MsgProp) }
-func vpH_step_C_MsgProp()      { vpCell(StateCandidate, pb.MsgProp) }
-func vpH_step_P_MsgProp()      { vpCell(StatePreCandidate, pb.MsgProp) }
-func vpH_step_L_MsgProp()      { vpCell(StateLeader, pb.MsgProp) }
-func vpH_step_L_MsgAppResp()   { vpCell(StateLeader, pb.MsgAppResp) }
-func vpH_step_F_MsgAppResp()   { vpCell(StateFollower, pb.MsgAppResp) }
-func vpH_step_C_MsgAppResp()   { vpCell(StateCandidate, pb.MsgAppResp) }
-func vpH_step_L_MsgHeartbeatResp() { vpCell(StateLeader, pb.MsgHeartbeatResp) }
-func vpH_step_F_MsgHeartbeatResp() { vpCell(StateFollower, pb.MsgHeartbeatResp) }
-func vpH_step_L_MsgBeat()      { vpCell(StateLeader, pb.MsgBeat) }
-func vpH_step_F_MsgBeat()      { vpCell(StateFollower, pb.MsgBeat) }
-func vpH_step_L_MsgCheckQuorum() { vpCell(StateLeader, pb.MsgCheckQuorum) }
-func vpH_step_F_MsgCheckQuorum() { vpCell(StateFollower, pb.MsgCheckQuorum) }
-func vpH_step_L_MsgSnapStatus() { vpCell(StateLeader, pb.MsgSnapStatus) }
-func vpH_step_L_MsgUnreachable() { vpCell(StateLeader, pb.MsgUnreachable) }
-func vpH_step_L_MsgTransferLeader() { vpCell(StateLeader, pb.MsgTransferLeader) }
-func vpH_step_F_MsgTransferLeader() { vpCell(StateFollower, pb.MsgTransferLeader) }
-func vpH_step_L_MsgReadIndex() { vpCell(StateLeader, pb.MsgReadIndex) }
-func vpH_step_F_MsgReadIndex() { vpCell(StateFollower, pb.MsgReadIndex) }
-func vpH_step_F_MsgReadIndexResp() { vpCell(StateFollower, pb.MsgReadIndexResp) }
-func vpH_step_L_MsgForgetLeader() { vpCell(StateLeader, pb.MsgForgetLeader) }
-func vpH_step_F_MsgForgetLeader() { vpCell(StateFollower, pb.MsgForgetLeader) }
+func vpH_read_L_MsgReadIndex()           { vpReadCell(pb.MsgReadIndex, []int{0, 1}, 1, 1) }
+func vpH_read_L_MsgReadIndex_singleton() { vpReadCell(pb.MsgReadIndex, []int{6, 8}, 0, 0) }
+func vpH_read_L_MsgHeartbeatResp()       { vpReadCell(pb.MsgHeartbeatResp, []int{0}, 2, 0) }
+func vpH_read_L_MsgHeartbeatResp_joint() { vpReadCell(pb.MsgHeartbeatResp, []int{1, 9}, 2, 0) }
